@@ -1,6 +1,14 @@
 #!/bin/sh
-# regenerate _CoqProject + Makefile from the files present, then make the given targets
+# Regenerate Gen/ from the repository under check, refresh _CoqProject/Makefile from the
+# files present, then make the given targets (full .vo build).  Serialised by a lock.
+# env: FORCE_REBUILD="Props/C14" removes that file's outputs first; VERIF_REPO selects the tree.
 cd "$(dirname "$0")"
+exec 9>.lock
+flock 9
+export VERIF_COQ_DIR="$(pwd)"
+if [ -z "$VERIF_TOOLS" ]; then if [ -f ../tools/gen_all.py ]; then VERIF_TOOLS=../tools; else VERIF_TOOLS=/verif/tools; fi; fi
+/venv/bin/python "$VERIF_TOOLS/gen_all.py" 2>&1 || true
+for f in $FORCE_REBUILD; do rm -f "$f.vo" "$f.vok" "$f.vos" "$f.glob"; done
 { echo "-Q . V"; ls Model/*.v Proofs/*.v Props/*.v Gen/*.v 2>/dev/null; } > _CoqProject.new
 if ! cmp -s _CoqProject.new _CoqProject 2>/dev/null; then mv _CoqProject.new _CoqProject; coq_makefile -f _CoqProject -o Makefile >/dev/null; else rm _CoqProject.new; fi
 [ -f Makefile ] || coq_makefile -f _CoqProject -o Makefile >/dev/null
